@@ -6,6 +6,7 @@
   documents are shared values.
 -/
 import Props.Tables
+import Props.Writes
 import Jmes.Api
 namespace Jmes.Props
 open Jmes Jmes.Api
@@ -13,6 +14,11 @@ open Jmes Jmes.Api
 theorem C13_generated_table_ok : TableOK Generated.table = true := generated_table_ok
 theorem C13_generated_sigs_ok : SigsOK Generated.functionTable Spec.functionTable = true := generated_sigs_ok
 theorem C13_generated_lex_ok : LexTablesOK Model.lexTables Spec.lexTables = true := generated_lex_ok
+
+/-- The regenerated write-site facts: a Search writes neither to the compiled
+    expression nor to package state, which is why the model may treat a compiled
+    expression as an immutable value. -/
+theorem C13_generated_writes_ok : WritesOK GeneratedWrites.writeSites = true := generated_writes_ok
 
 variable {N : Type} [NumOps N]
 
